@@ -68,6 +68,22 @@ def frame(name, p):
     return out
 
 
+CONTROL = [0, 8, 9, 10, 13, 27, 32, 127, 255]
+
+
+def control_tail_payloads(rng):
+    """payloads whose last byte and whose CRC-8 are both bytes that mean something to a line buffer or a terminal (CR, LF, BS, DEL, ESC,
+    NUL, ...): every such pair, reached by choosing the byte in front (the receiver keeps payload + CRC in an sline)"""
+    out = []
+    for last in CONTROL:
+        for want in CONTROL:
+            pre = [rng.randrange(256) for _ in range(rng.choice([0, 1, 3]))]
+            for x in range(256):
+                if crc8(pre + [x, last]) == want:
+                    out.append(pre + [x, last]); break
+    return out
+
+
 def special_bytes(name):
     return sorted(set(cx_of(name).values()))
 
